@@ -12,6 +12,9 @@ import (
 const currentVersion = 1
 
 func (s *Dimension) Serialize(w io.Writer) error {
+	s.m.RLock()
+	defer s.m.RUnlock()
+
 	varint.Write(w, currentVersion)
 
 	for _, k := range s.keys {
